@@ -10,6 +10,7 @@ import (
 	"strconv"
 	"strings"
 	"sync"
+	"time"
 
 	"github.com/tidwall/tile38/verifapi"
 	"verifharness/internal/hx"
@@ -241,6 +242,7 @@ type fcase struct {
 	validLen int  // expected size after repair (harness bookkeeping, model-free)
 	torn     bool // the file ends strictly inside a command
 	zeros    int
+	padAfter int // NULs appended after the torn command (crash on a zero-extending file system)
 }
 
 // build a file: the first k bytes of the log with zero runs injected at command boundaries
@@ -294,7 +296,7 @@ type obs struct {
 
 var extraCmd = []string{"SET", "zz-extra", "x\r\n", "STRING", "after\x00recovery"}
 
-func observe(dir string, file []byte) (o obs) {
+func observe(dir string, file []byte, settle bool) (o obs) {
 	os.MkdirAll(dir, 0o755)
 	aof := filepath.Join(dir, "appendonly.aof")
 	defer os.RemoveAll(dir)
@@ -305,6 +307,16 @@ func observe(dir string, file []byte) (o obs) {
 			s.Kill()
 		}
 		return
+	}
+	if settle {
+		// a loadAOF error lets the process answer for about a second before it exits with [FATA]
+		for i := 0; i < 16 && s.Alive(); i++ {
+			time.Sleep(100 * time.Millisecond)
+		}
+		if !s.Alive() {
+			o.startErr = "server exited shortly after start: " + fatalLine(s.LogTail(600))
+			return
+		}
 	}
 	o.started = true
 	if fi, err := os.Stat(aof); err == nil {
@@ -346,6 +358,13 @@ func observe(dir string, file []byte) (o obs) {
 	}()
 	s2.Kill()
 	return
+}
+
+func fatalLine(log string) string {
+	if i := strings.Index(log, "[FATA]"); i >= 0 {
+		return strings.TrimSpace(log[i:])
+	}
+	return log
 }
 
 func cmdsStr(cmds [][]string) string {
@@ -493,6 +512,26 @@ func runC04(r *hx.Result, cfg hx.Config) {
 		}
 	}
 
+	// a torn command followed by zero padding (a crash during an append on a zero-extending file system)
+	{
+		var padded []fcase
+		pads := []int{1, 2, 7, 64, 4096}
+		for _, fc := range cases {
+			if !fc.torn || fc.zeros > 0 || len(fc.file) > 20000 || rng.Intn(6) != 0 {
+				continue
+			}
+			p := fc
+			p.padAfter = pads[rng.Intn(len(pads))]
+			p.file = append(append([]byte{}, fc.file...), make([]byte, p.padAfter)...)
+			p.desc = fmt.Sprintf("%s then %d NULs", fc.desc, p.padAfter)
+			padded = append(padded, p)
+		}
+		if cfg.Tier == "quick" && len(padded) > 60 {
+			padded = padded[:60]
+		}
+		cases = append(cases, padded...)
+	}
+
 	// directed regression logs (run in every tier): NUL bytes of a large binary value at the file
 	// offsets where loadAOF's reads start (carry-over buffer non-empty there)
 	var directed []fcase
@@ -531,7 +570,7 @@ func runC04(r *hx.Result, cfg hx.Config) {
 			defer wg.Done()
 			for i := range ch {
 				fc := cases[i]
-				o := observe(filepath.Join(cfg.Work, fmt.Sprintf("c-%d-%d", w, i)), fc.file)
+				o := observe(filepath.Join(cfg.Work, fmt.Sprintf("c-%d-%d", w, i)), fc.file, fc.padAfter > 0)
 				m := drv.Ask("load", model.H(string(fc.file)))
 				mu.Lock()
 				judge(r, fc, o, m)
@@ -572,6 +611,9 @@ func judge(r *hx.Result, fc fcase, o obs, m string) {
 	if fc.zeros > 0 {
 		kind += "+zeros"
 	}
+	if fc.padAfter > 0 {
+		kind += "+padded-after"
+	}
 	r.Dist("load:" + kind)
 	r.Count("l\x00"+fc.desc, fc.torn && fc.ncomp > 0)
 	r.Sample(4, map[string]interface{}{"case": fc.desc, "file_len": len(fc.file), "complete_cmds": fc.ncomp, "expected_valid_len": fc.validLen, "size_after_start": o.size1})
@@ -580,6 +622,14 @@ func judge(r *hx.Result, fc fcase, o obs, m string) {
 		r.Fail(hx.Failure{Kind: kind, Signature: sig, What: what + " (" + fc.desc + ")", Case: cs, Impl: impl, Model: mod})
 	}
 	// direct oracles (no model)
+	if !o.started && fc.padAfter > 0 {
+		// open known finding C04-torn-then-padded; the model must predict exactly these failures
+		fail("oracle", "start-fails-torn-then-padded", fmt.Sprintf("a torn command followed by %d NUL bytes of padding is not repaired: the server refuses to start: %s", fc.padAfter, o.startErr), o.startErr, nil)
+		if !strings.HasPrefix(m, "E ") {
+			fail("correspondence", "load-model", "the server fails on a torn-then-padded log that the model loads", o.startErr, m)
+		}
+		return
+	}
 	if !o.started {
 		fail("oracle", "start-fails", "the server does not start on a torn/padded log: "+o.startErr, o.startErr, nil)
 		return
